@@ -23,7 +23,7 @@ Section C10.
   (* indeed every request of every history does *)
   Theorem C10_every_request_fresh : forall h,
     run ty ty_eqb conv [] h = map (fresh ty ty_eqb conv) h.
-  Proof. intros h. exact (run_all_fresh ty ty_eqb ty_eqb_eq conv h [] (inv_nil ty ty_eqb conv)). Qed.
+  Proof. exact (run_all_fresh_nil ty ty_eqb ty_eqb_eq conv). Qed.
 
   (* and the fresh result is the conversion's: value, or its error (MustGet: the panic carrying
      it, GetOrDefault: the default) *)
@@ -81,14 +81,63 @@ Qed.
 Theorem C10_orig_refuted_collision :
   exists h o, last (run_orig gty gty_eqb gty_iface gty_name wconv [] (h ++ [o])%list) OErr
               <> fresh gty gty_eqb wconv o.
-Proof.
-  exists [Get "a" Tuint8], (Get "au" Tint8). destruct orig_collision as [R F].
-  cbn [app]. rewrite R, F. cbn. discriminate.
-Qed.
+Proof. exact orig_refuted_collision. Qed.
 
 Theorem C10_orig_refuted_nil_interface :
   exists h, In OPanic (run_orig gty gty_eqb gty_iface gty_name wconv [] h).
-Proof. exists [Get "n" Tany]. destruct orig_nil_interface as [R _]. rewrite R. left. reflexivity. Qed.
+Proof. exact orig_refuted_nil_interface. Qed.
+
+(* ------------------------------------------------------------------ the conversion step
+   extractAndConvert = path walk over the dotted key, yaml re-encoding, decoding into T, where the
+   decoder is an oracle that may return a value, an error or PANIC (reflection over an arbitrary
+   Go type).  GConfConvModel.conv_model is what coq/ties/Tie_C10.v proves the regenerated
+   extractAndConvert to be.                                                                     *)
+From GT Require Import GConfConvModel GConfConvProofs.
+
+Section C10_conversion.
+  Variable ybytes : Type.
+  Variable ty : Type.
+  Variable ty_eqb : ty -> ty -> bool.
+  Hypothesis ty_eqb_eq : forall a b, ty_eqb a b = true <-> a = b.
+  Variable marshal : tree -> ybytes * bool.
+  Variable unmarshal : ty -> ybytes -> val -> option (val * bool).
+  Variable data : list (string * tree).
+  Variable zero_of : ty -> val.
+
+  (* whatever encoder and decoder do — value, error, panic — no request of any history panics *)
+  Theorem C10_no_panic_any_decoder : forall h,
+    ~ In OPanic (run ty ty_eqb (conv_of_decoder ybytes ty marshal unmarshal data zero_of) [] h).
+  Proof. exact (no_panic_any_decoder ybytes ty ty_eqb ty_eqb_eq marshal unmarshal data zero_of). Qed.
+
+  (* a value the decoder cannot decode into T without panicking is an ERROR of the request *)
+  Theorem C10_decoder_panic_is_error : forall key T,
+    conv3_of_decoder ybytes ty marshal unmarshal data zero_of key T = CPanic ->
+    fresh ty ty_eqb (conv_of_decoder ybytes ty marshal unmarshal data zero_of) (Get key T) = OErr /\
+    fresh ty ty_eqb (conv_of_decoder ybytes ty marshal unmarshal data zero_of) (MustGet key T) = OMustPanic /\
+    forall d, fresh ty ty_eqb (conv_of_decoder ybytes ty marshal unmarshal data zero_of) (GetOrDefault key T d) = OVal d.
+  Proof. exact (decoder_panic_is_error ybytes ty ty_eqb marshal unmarshal data zero_of). Qed.
+
+  (* HEAD before fix C10-conversion-panic: the same request panicked (inside xsync's Compute) *)
+  Theorem C10_head_panicked : forall key T,
+    conv3_of_decoder ybytes ty marshal unmarshal data zero_of key T = CPanic ->
+    fresh_head ty ty_eqb (conv3_of_decoder ybytes ty marshal unmarshal data zero_of) (Get key T) = OPanic.
+  Proof. exact (head_panics ybytes ty ty_eqb marshal unmarshal data zero_of). Qed.
+End C10_conversion.
+
+(* the hypothesis of the two theorems above is satisfiable: a decoder that panics on one type *)
+Theorem C10_head_refuted_conversion_panic :
+  fresh_head nat Nat.eqb (conv3_of_decoder tree nat (fun t => (t, false)) demo_unmarshal demo_data (fun _ => VNil)) (Get "st" 0) = OPanic
+  /\ fresh nat Nat.eqb (conv_of_decoder tree nat (fun t => (t, false)) demo_unmarshal demo_data (fun _ => VNil)) (Get "st" 0) = OErr.
+Proof. exact head_refuted_conversion_panic. Qed.
+
+(* dotted keys descend through maps only: a list (or a scalar) on the way is "not found" *)
+Theorem C10_path_through_list_not_found : forall m k rest l,
+  assoc k m = Some (Lst l) -> rest <> [] -> extract m (k :: rest) = None.
+Proof. exact extract_through_list. Qed.
+
+Theorem C10_path_through_non_map_not_found : forall m k rest v,
+  assoc k m = Some v -> rest <> [] -> (forall m', v <> Mp m') -> extract m (k :: rest) = None.
+Proof. exact extract_through_non_map. Qed.
 
 Print Assumptions C10_pure.
 Print Assumptions C10_every_request_fresh.
@@ -99,3 +148,9 @@ Print Assumptions C10_independent.
 Print Assumptions C10_concurrent_partial.
 Print Assumptions C10_orig_refuted_collision.
 Print Assumptions C10_orig_refuted_nil_interface.
+Print Assumptions C10_no_panic_any_decoder.
+Print Assumptions C10_decoder_panic_is_error.
+Print Assumptions C10_head_panicked.
+Print Assumptions C10_head_refuted_conversion_panic.
+Print Assumptions C10_path_through_list_not_found.
+Print Assumptions C10_path_through_non_map_not_found.
